@@ -34,19 +34,96 @@ fn conv(s: &str) -> Value {
                                 "fromstring": "", "panic": true, "msg": p}))
 }
 
+/// Generic conversions for the plain string enums of the API crates (same record shape as vh's c19).
+fn conv_t<T>(name: &str, s: &str) -> Value
+where
+    T: for<'a> From<&'a str> + From<String> + ToString + serde::Serialize + serde::de::DeserializeOwned,
+{
+    let r = guard(|| {
+        let v = T::from(s);
+        let out = v.to_string();
+        let custom = std::mem::discriminant(&v) == std::mem::discriminant(&T::from(CUSTOM_PROBE));
+        let ser = serde_json::to_value(&v).ok().and_then(|j| j.as_str().map(|x| x.to_owned())).unwrap_or_else(|| "<not a string>".into());
+        let de = serde_json::from_value::<T>(json!(s)).map(|d| d.to_string()).unwrap_or_else(|e| format!("<error {e}>"));
+        let again = T::from(out.as_str());
+        let idem = std::mem::discriminant(&again) == std::mem::discriminant(&v) && again.to_string() == out;
+        json!({"kind": "conv", "enum": name, "s": s, "out": out, "custom": custom, "display": v.to_string(), "ser": ser, "de": de,
+               "idem": idem, "fromstring": T::from(s.to_owned()).to_string(), "debug_has_string": true, "panic": false})
+    });
+    r.unwrap_or_else(|p| json!({"kind": "conv", "enum": name, "s": s, "out": "", "custom": false, "display": "", "ser": "", "de": "", "idem": false,
+                                "fromstring": "", "panic": true, "msg": p}))
+}
+
+type ConvFn = fn(&str, &str) -> Value;
+
+fn api_enums() -> Vec<(&'static str, ConvFn)> {
+    use ruma_client_api as c;
+    vec![
+        ("Visibility", conv_t::<c::room::Visibility>),
+        ("EventFormat", conv_t::<c::filter::EventFormat>),
+        ("RoomPreset", conv_t::<c::room::create_room::v3::RoomPreset>),
+        ("ThirdPartyIdRemovalStatus", conv_t::<c::account::ThirdPartyIdRemovalStatus>),
+        ("ContactRole", conv_t::<c::discovery::discover_support::ContactRole>),
+        ("RoomVersionStability", conv_t::<c::discovery::get_capabilities::RoomVersionStability>),
+        ("MembershipEventFilter", conv_t::<c::membership::get_member_events::v3::MembershipEventFilter>),
+        ("GroupingKey", conv_t::<c::search::search_events::v3::GroupingKey>),
+        ("SearchKeys", conv_t::<c::search::search_events::v3::SearchKeys>),
+        ("OrderBy", conv_t::<c::search::search_events::v3::OrderBy>),
+        ("AuthType", conv_t::<c::uiaa::AuthType>),
+        ("IncludeThreads", conv_t::<c::threads::get_threads::v1::IncludeThreads>),
+        ("FailureErrorCode", conv_t::<c::keys::upload_signatures::v3::FailureErrorCode>),
+        ("ApiReceiptType", conv_t::<c::receipt::create_receipt::v3::ReceiptType>),
+        ("ProfileField", conv_t::<ruma_federation_api::query::get_profile_information::v1::ProfileField>),
+        ("NotificationPriority", conv_t::<ruma_push_gateway_api::send_event_notification::v1::NotificationPriority>),
+        ("IdentifierHashingAlgorithm", conv_t::<ruma_identity_service_api::lookup::IdentifierHashingAlgorithm>),
+    ]
+}
+
+fn near(s: &str) -> Vec<String> {
+    let mut v = vec![s.to_uppercase(), s.to_lowercase(), format!("{s} "), format!(" {s}"), format!("{s}."), format!("x{s}"), s.replace('.', "_"), s.replace('_', "."),
+                     s.replace('_', "-"), s.replace('-', "_"), s.replace('_', ""), format!("{s}\u{0}")];
+    let chars: Vec<char> = s.chars().collect();
+    for k in 0..chars.len() {
+        let mut c = chars.clone();
+        c.remove(k);
+        v.push(c.into_iter().collect());
+    }
+    v
+}
+
 pub fn run() {
     // stdin: table cases {enum, s}
-    let mut specified: Vec<String> = vec![];
+    let mut lines: Vec<Value> = vec![];
     for line in std::io::stdin().lock().lines() {
         let line = line.unwrap();
-        if line.trim().is_empty() {
-            continue;
+        if !line.trim().is_empty() {
+            lines.push(serde_json::from_str(&line).unwrap());
         }
-        let c: Value = serde_json::from_str(&line).unwrap();
+    }
+    for (name, f) in api_enums() {
+        let spec: Vec<String> = lines.iter().filter(|c| c["enum"] == name).map(|c| c["s"].as_str().unwrap().to_owned()).collect();
+        let mut strings = spec.clone();
+        for s in &spec {
+            strings.extend(near(s));
+        }
+        strings.extend(["".to_owned(), "org.example.custom".to_owned(), "\u{e9}".to_owned()]);
+        strings.sort();
+        strings.dedup();
+        for s in &strings {
+            println!("{}", f(name, s));
+        }
+    }
+    run_error_codes(lines);
+}
+
+fn run_error_codes(lines: Vec<Value>) {
+    let mut specified: Vec<String> = vec![];
+    for c in lines {
         if c["enum"] == "ErrorCode" {
             specified.push(c["s"].as_str().unwrap().to_owned());
         }
     }
+
     let mut strings = specified.clone();
     for s in &specified {
         // near misses: American / British spelling, case, separators, affixes
